@@ -23,7 +23,7 @@ LIBS = ['GSC180', 'NANGATE', 'NANGATE_ZN', 'SAED32', 'SAED90']
 
 
 def tasks(tier, seed):
-    return [('lib', l) for l in LIBS]
+    return [('lib', l) for l in LIBS] + [('cross', seed)]
 
 
 # ---- independent re-derivation of the cell names from the library source text
@@ -164,9 +164,50 @@ def datasheet(lib, name):
     return None
 
 
+def run_cross(res, task):
+    """all libraries in ONE process, in two orders: the accessors must agree with every library's own pin table
+    regardless of which library was asked before (state shared between TechLib objects would show here)"""
+    import kyupy.techlib as tl
+    rot = task[1] % len(LIBS)
+    orders = [LIBS[rot:] + LIBS[:rot], (LIBS[rot:] + LIBS[:rot])[::-1]]
+    for oi, order in enumerate(orders):
+        for libname in order:
+            lib = getattr(tl, libname)
+            for name in sorted(lib.cells):
+                c, pins = lib.cells[name]
+                for p, (idx, is_out) in pins.items():
+                    res.evals += 1
+                    try:
+                        got = (lib.pin_index(name, p), lib.pin_is_output(name, p))
+                    except Exception as ex:
+                        got = repr(ex)
+                    if got != (idx, is_out):
+                        res.violation(f'C19/cross/{libname}/{name}/pin={p}', {'task': list(task)}, f'{libname}.pin_index/pin_is_output({name}, {p}) = {got}, pin table says {(idx, is_out)} (libraries asked in order {order})')
+            # a pin name of another library's cell of the same name must be rejected
+            for other in LIBS:
+                if other == libname: continue
+                ol = getattr(tl, other)
+                for name in sorted(set(lib.cells) & set(ol.cells)):
+                    for p in set(ol.cells[name][1]) - set(lib.cells[name][1]):
+                        res.evals += 1
+                        try:
+                            r = lib.pin_index(name, p)
+                            res.violation(f'C19/cross/{libname}/{name}/foreign-pin={p}', {'task': list(task)}, f'{libname}.pin_index({name}, {p}) returned {r} although {libname}.{name} has no pin {p} (it is a pin of {other}.{name})')
+                        except (AssertionError, KeyError):
+                            pass
+        res.sig(('cross', tuple(order)))
+    res.count('cross_orders', len(orders))
+    res.samples.append({'kind': 'cross', 'order': orders[0]})
+
+
 def run_task(task):
     import kyupy.techlib as tl
     res = common.Result()
+    if task[0] == 'cross':
+        try: run_cross(res, task)
+        except Exception as ex:
+            res.violation(f'C19/cross/exception-{type(ex).__name__}', {'task': list(task)}, traceback.format_exc()[-1500:])
+        return res
     libname = task[1]
     try:
         lib = getattr(tl, libname)
@@ -244,6 +285,6 @@ def check_cell(res, task, libname, lib, name, ins, outs):
 
 
 def finish(agg, tier):
-    if agg.counters.get('names', 0) < 900 or agg.counters.get('function_checked', 0) < 500:
+    if agg.counters.get('names', 0) < 900 or agg.counters.get('function_checked', 0) < 500 or not agg.counters.get('cross_orders'):
         raise common.HarnessError(f'vacuity guard: names={agg.counters.get("names")} function_checked={agg.counters.get("function_checked")}')
     return {}
